@@ -454,6 +454,16 @@ def random_trace(seed, tid, workdir, props):
     centre = pos.mean(axis=0)
     tpos = centre + rng.uniform(-1, 1, (nt, 3)) * rng.choice([0.3, 1.0, 2.0])
     s = float(rng.choice([rng.uniform(0.05, 2.0), 0.5, 1.0, 2.0, 0.0]))
+    if n >= 3 and len(anchors) >= 2:
+        # near ties: target atoms almost on the bisecting plane of two anchors, closer to the HIGHER-numbered one by
+        # 3e-6 .. 4e-4 nm (a gap that vanishes at the three decimals of a coordinate file but is a gap)
+        for t in range(min(3, nt)):
+            a, b = sorted(int(x) for x in rng.choice(anchors, 2, replace=False))
+            u = pos[b] - pos[a]
+            L = np.linalg.norm(u)
+            u = u / L
+            w = np.cross(u, _unit(rng)) * rng.uniform(0.0, 0.3)
+            tpos[t] = 0.5 * (pos[a] + pos[b]) + w + u * 10.0 ** (-rng.uniform(3.4, 5.5))
     names = ['C%d' % (i + 1) for i in range(n)]
     refmol = synth.make_molecule(os.path.join(workdir, 'rr'), 'RREF', names, bonds, np.round(pos, 3))
     tgt = synth.make_molecule(os.path.join(workdir, 'rt'), 'RTGT', ['T%d' % (i + 1) for i in range(nt)], [],
@@ -461,11 +471,28 @@ def random_trace(seed, tid, workdir, props):
     refmol.atoms_positions = pos
     tgt.atoms_positions = tpos
     ev = []
+    if kind in ('tree', 'cyclic') and n >= 4 and rng.random() < 0.15:
+        # a bond added programmatically after the topology was already used by a map: the new map must see it
+        ExchangeMap(refmol, tgt, s)
+        free = [(i, j) for i in range(n) for j in range(i) if (j + 1, i + 1) not in bonds]
+        i, j = free[int(rng.integers(0, len(free)))]
+        bonds2 = list(bonds) + [(j + 1, i + 1)]
+        nb2, anchors2, triple2 = _graph_info(n, bonds2)
+        if _classify(pos, anchors2, triple2) == []:
+            top = refmol.molecule_top
+            (top[i].connect(top[j])) if rng.random() < 0.5 else (top[j].connect(top[i]))
+            bonds, nb, anchors, triple = bonds2, nb2, anchors2, triple2
     m = ExchangeMap(refmol, tgt, s)
     # the map captures the construction conformations: later changes to the objects it was built from
     # (before its first use, too) must not matter.  From here on `refmol` is a copy holding the reference conformation.
     built_from = refmol
-    refmol = built_from.copy()
+    if rng.random() < 0.5 or n < 3:
+        refmol = built_from.copy()
+    else:
+        # an independently loaded molecule of the same species whose topology file lists the bonds in another
+        # order (and direction): the species is the same, so is the map
+        shuffled = [(b_ if rng.random() < 0.5 else b_[::-1]) for b_ in (bonds[int(k_)] for k_ in rng.permutation(len(bonds)))]
+        refmol = synth.make_molecule(os.path.join(workdir, 'rr2'), 'RREF', names, shuffled, np.round(pos, 3))
     refmol.atoms_positions = pos
     if rng.random() < 0.5:
         tgt.atoms_positions = tpos @ _random_rotation(rng).T + rng.normal(size=3) * 3
